@@ -418,6 +418,15 @@ class History:
                     continue
                 if r0 != r2:
                     continue
+                try:
+                    fresh_rows = self.shadow(lambda w=w, size=size, focus=focus: w.render(size, focus).rows())
+                except Exception:  # noqa: BLE001
+                    continue
+                if fresh_rows != r0:
+                    # rows() disagrees with the widget's own fresh rendering: C01's contract (a known family there:
+                    # containers reporting 1 row around an empty child); the cached answer cannot agree with both
+                    self.c("inner_rows_not_judged_rows_method_disagrees_with_fresh_render")
+                    continue
                 self.c("inner_rows_judged")
                 if r1 != r0:
                     self.found.append((f"C06|stale-rows|widget={type(w).__name__}|after={self.last_mut}", f"{type(w).__name__}.rows{size!r} focus={focus}: cached {r1} fresh {r0}"))
@@ -806,6 +815,17 @@ def regression_cases(mode):
     wp = {"t": "Pile", "items": [["weight", 1, T_("a")], ["weight", 1, {"t": "Pile", "items": [], "focus": 0}]], "focus": 0}
     out.append({"mode": mode, "kind": "flow", "recipe": wp, "sizes": [[12]], "ops": [["render", 0, 0], ["mut", 2, ["contents_append", 99]], ["render", 0, 0]]})
     out.append({"mode": mode, "kind": "flow", "recipe": {"t": "LineBox", "w": wp, "title": ""}, "sizes": [[12]], "ops": [["render", 0, 1], ["mut", 3, ["contents_append", 98]], ["render", 0, 1]]})
+    # a Frame part (header / footer) that reports no rows is left out of the canvas; a Pile rendered as a fixed
+    # widget with an empty WEIGHT item; a Scrollable whose position is clamped (not reset) by a taller render
+    fr = {"t": "Frame", "body": {"t": "SolidFill", "ch": "."}, "header": {"t": "Pile", "items": [], "focus": 0}, "footer": None, "focus": "body"}
+    out.append({"mode": mode, "kind": "box", "recipe": fr, "sizes": [[8, 3]], "ops": [["render", 0, 0], ["mut", 1, ["contents_append", 31]], ["render", 0, 0]]})
+    fr2 = {"t": "Frame", "body": {"t": "SolidFill", "ch": "."}, "header": T_("head"), "footer": {"t": "Pile", "items": [], "focus": 0}, "focus": "body"}
+    out.append({"mode": mode, "kind": "box", "recipe": fr2, "sizes": [[8, 4]], "ops": [["render", 0, 1], ["mut", 3, ["contents_append", 32]], ["render", 0, 1]]})
+    fx = {"t": "Pile", "items": [["pack", None, T_("hello")], ["weight", 1, {"t": "Pile", "items": [], "focus": 0}]], "focus": 0}
+    out.append({"mode": mode, "kind": "fixed", "recipe": fx, "sizes": [[]], "ops": [["render", 0, 0], ["mut", 2, ["contents_append", 33]], ["render", 0, 0]]})
+    sc2 = {"t": "Scrollable", "w": T_("\n".join(f"row {i}" for i in range(10))), "pos": 7}
+    for f in (1, 0):
+        out.append({"mode": mode, "kind": "box", "recipe": sc2, "sizes": [[11, 3], [11, 6], [11, 12]], "ops": [["render", 0, f], ["render", 1, f], ["render", 0, f], ["render", 2, f], ["render", 0, f]]})
     # scroll state reached only key by key: a tall item partly scrolled off, then back (looks after every key)
     tall = "\n".join(f"line {i}" for i in range(12))
     lbs = [
